@@ -4,7 +4,7 @@ CONSTANTS
   Alphabet = {0, 1, 15, 128, 170, 255}
   MaxBody = 4
   Biases = {0, 1, 1000}
-  Maxes = {0, 5, 1000, 1000000000}
+  Maxes = {0, 5, 1000, 1000000}
   RoundTripMax = 9
 INVARIANTS QueueOK CaseDump
 CHECK_DEADLOCK FALSE
